@@ -391,7 +391,10 @@ def replay(ctx, path):
         tsan = "tsan" in args[0]
         hook = hook_present(ctx)
         exe2 = ctx.build_cpp("c15_tsan", "c15.cpp", extra=["-g", "-fsanitize=thread", "-DC15_NO_REC"]) if tsan else ctx.build_cpp("c15_stress", "c15.cpp", hooks=hook)
-        rc, out, err = run_one(exe2, cfg, timeout=120)
+        for attempt in range(20 if tsan else 1):     # whether the conflicting accesses overlap depends on the schedule
+            rc, out, err = run_one(exe2, cfg, timeout=120)
+            if rc != 0 or "WARNING: ThreadSanitizer" in err:
+                break
         ctx.case("replay:" + rp["command"])
         bad = None if tsan else oracle(parse_events(out), cfg[0], hook)
         ctx.log(f"replay {rp['command']}: exit {rc}, tsan reports {err.count('WARNING: ThreadSanitizer')}, oracle {bad}")
